@@ -87,7 +87,8 @@ type egen struct {
 var intAtoms = []struct {
 	src string
 	v   int64
-}{{"a", 7}, {"b", 2}, {"c", -3}, {"n1", 1}, {"li[0]", 3}, {"st.A", 5}, {"(a)", 7}, {"add3(a, 0, 0)", 7}, {"li[2]", 4}}
+}{{"a", 7}, {"b", 2}, {"c", -3}, {"n1", 1}, {"li[0]", 3}, {"st.A", 5}, {"(a)", 7}, {"add3(a, 0, 0)", 7}, {"li[2]", 4},
+	{"bi", 9007199254740993}, {"bj", 9007199254740992}, {"bi", 9007199254740993}, {"bm", 9223372036854775807}, {"bn", -9223372036854775808}}
 var floatAtoms = []struct {
 	src string
 	v   float64
@@ -225,7 +226,16 @@ func (g *egen) boolean(d int) (*enode, ev) {
 			var lv, rv ev
 			l, lv = g.num(d - 1)
 			rt, rv = g.num(d - 1)
-			eq = lv.num() == rv.num()
+			if r.Chance(25) { // close neighbours far beyond 2^53: equal as floats, different as ints
+				pair := [][2]int{{9, 10}, {10, 9}, {9, 9}, {11, 11}}[r.Intn(4)]
+				l, lv = atom(intAtoms[pair[0]].src), ev{k: 'i', i: intAtoms[pair[0]].v}
+				rt, rv = atom(intAtoms[pair[1]].src), ev{k: 'i', i: intAtoms[pair[1]].v}
+			}
+			if lv.k == 'i' && rv.k == 'i' {
+				eq = lv.i == rv.i // two Go integers compare integrally
+			} else {
+				eq = lv.num() == rv.num()
+			}
 		case 1:
 			var lv, rv ev
 			l, lv = g.str(d - 1)
@@ -372,6 +382,7 @@ func genExprCase(r *h.Rand) h.Case {
 	p := newProg(r)
 	p.esc = "html"
 	p.vars = sx.L(bind("a", vInt(7)), bind("b", vInt(2)), bind("c", vInt(-3)), bind("n1", vInt(1)), bind("x", vFloat(1.5)),
+		bind("bi", vInt(9007199254740993)), bind("bj", vInt(9007199254740992)), bind("bm", vInt(9223372036854775807)), bind("bn", vInt(-9223372036854775808)),
 		bind("li", vSliceT(vInt(3), vInt(0), vInt(4))), bind("ls", vSliceT(vStr("l0"), vStr(""), vStr("z"))),
 		bind("st", vT1(5, "B", vSliceI(), vMapI(), vPtr("T1", nil), vInt(0))),
 		bind("s", vStr("a<b")), bind("e", vStr("")), bind("t", vBool(true)), bind("ff", vBool(false)))
@@ -442,11 +453,16 @@ func evalNode(n *enode) ev {
 			eq = l.s == r.s
 		case l.k == 'b':
 			eq = l.b == r.b
+		case l.k == 'i' && r.k == 'i':
+			eq = l.i == r.i
 		default:
 			eq = l.num() == r.num()
 		}
 		return ev{k: 'b', b: eq == (n.op == "==")}
 	case "<", "<=", ">", ">=":
+		if l.k == 'i' && r.k == 'i' {
+			return ev{k: 'b', b: map[string]bool{"<": l.i < r.i, "<=": l.i <= r.i, ">": l.i > r.i, ">=": l.i >= r.i}[n.op]}
+		}
 		a, b := l.num(), r.num()
 		return ev{k: 'b', b: map[string]bool{"<": a < b, "<=": a <= b, ">": a > b, ">=": a >= b}[n.op]}
 	}
